@@ -307,10 +307,18 @@ def run(tier):
     try:
         tw = chrun.run(__name__, "h_stream", [(0, len(KINDS))], timeout=60, globs=dict(globs, TWIN=True), pool=pool)
         chrun.record(ck, tw, "reachability twin", expect="refuted")
-        shards = [(p, a) for p in range(len(B.NS_PAYLOADS)) for a in range(len(KINDS) + 1)]
+        # thorough: the larger trees take every fourth payload rotation (1.15 million paths with all 18); the quick-size trees take all
+        rots = list(range(len(B.NS_PAYLOADS))) if tier == "quick" else list(range(0, len(B.NS_PAYLOADS), 4))
+        shards = [(p, a) for p in rots for a in range(len(KINDS) + 1)]
         res = chrun.run(__name__, "h_stream", shards, timeout=(150 if tier == "quick" else 1500), globs=globs, pool=pool)
         chrun.record(ck, res, "stream well-formedness, fold equality and fault injection over all trees x payload rotations x fault positions",
-                     bound=f"blocks<={maxb} depth<={maxd}")
+                     bound=f"blocks<={maxb} depth<={maxd}, {len(rots)} of {len(B.NS_PAYLOADS)} payload rotations")
+        if tier != "quick":
+            shards = [(p, a) for p in range(len(B.NS_PAYLOADS)) for a in range(len(KINDS) + 1)]
+            res_s = chrun.run(__name__, "h_stream", shards, timeout=600, globs=dict(globs, MAXB=2, MAXD=2), pool=pool)
+            chrun.record(ck, res_s, "the same over the quick-size trees with all payload rotations", bound=f"blocks<=2 depth<=2, {len(B.NS_PAYLOADS)} rotations")
+            if res_s.counterexamples and not res.counterexamples:
+                res, globs = res_s, dict(globs, MAXB=2, MAXD=2)
         tw = chrun.run(__name__, "h_misplaced", [(0, 0)], timeout=60, globs=dict(TWIN=True), pool=pool)
         chrun.record(ck, tw, "misplaced-construct reachability twin", expect="refuted")
         resm = chrun.run(__name__, "h_misplaced", [(a,) for a in range(len(MISPLACED_WRAPS))], timeout=120, pool=pool)
